@@ -157,6 +157,22 @@ def oracle(case, real, root_dir):
                     got3 = outcome(bf)
                     if got3 != want:
                         fail("the bundle's game.json differs from compiling the substituted text")
+                    # a second compilation in the same process after an included file was edited sees the new text
+                    inc = [q for q in files if q != case["root"] and "@include" not in files[q]]
+                    if inc:
+                        q = sorted(inc)[0]
+                        edited = dict(files)
+                        edited[q] = files[q] + ("" if files[q].endswith("\n") or not files[q] else "\n") + "edited line\n"
+                        open(os.path.join(root_dir, q), "w").write(edited[q])
+                        try:
+                            exp2 = substitute(edited, case["root"], [])
+                            if isinstance(exp2, list):
+                                want2 = outcome(lambda: parse("\n".join(exp2)))
+                                if outcome(lambda: parse_file(main)) != want2 or outcome(cf) != want2:
+                                    fail(f"after {q} was edited, compiling again in the same process does not give the substituted text "
+                                         "of the files as they are now")
+                        finally:
+                            open(os.path.join(root_dir, q), "w").write(files[q])
                     # `bardic play <file>.bard`
                     import click.testing
                     from bardic.cli.main import cli
